@@ -37,4 +37,28 @@ theorem code_getitem_coords (a b : C10.Area) (ys xs : PySlice) (h : C10.sliceAre
   · rw [hoff]
   · rw [co.1, co.2]
 
+/-- **split then concatenate, through the regenerated code**: cut a well-formed area after row `k` with the regenerated `__getitem__`
+(twice), hand the two results — sizes and extents exactly as `__getitem__` computed them — to the regenerated
+`concatenate_area_defs`: the original width, height and extent come back, in either member order -/
+theorem code_split_concat {g : Grid} (hg : C18.WF g) (k : Nat) (hk0 : 0 < k) (hk : k < g.h) (top bot : C10.Area)
+    (ht : C10.sliceArea ⟨g, (0, 0)⟩ ⟨some 0, some (k : Int)⟩ C10.fullSlice = some top)
+    (hb : C10.sliceArea ⟨g, (0, 0)⟩ ⟨some (k : Int), none⟩ C10.fullSlice = some bot) :
+    let a : C10.Area := ⟨g, (0, 0)⟩
+    let item := fun (ys : PySlice) =>
+      Gen.area_getitem (((ys.indices g.h).1 : Int), ((ys.indices g.h).2 : Int), 1)
+        (((C10.fullSlice.indices g.w).1 : Int), ((C10.fullSlice.indices g.w).2 : Int), 1)
+        g.h g.w (g.uplx, g.uply) g.dx g.dy (g.x0, g.y0, g.x1, g.y1) ((a.off.1 : Int), (a.off.2 : Int))
+    let rt := item ⟨some 0, some (k : Int)⟩
+    let rb := item ⟨some (k : Int), none⟩
+    Gen.concatenate_area_defs 0 true rt.1 rb.1 rt.2.1 rb.2.1 rt.2.2.1 rb.2.2.1 = some ((g.w : Int), (g.h : Int), (g.x0, g.y0, g.x1, g.y1)) ∧
+    Gen.concatenate_area_defs 0 true rb.1 rt.1 rb.2.1 rt.2.1 rb.2.2.1 rt.2.2.1 = some ((g.w : Int), (g.h : Int), (g.x0, g.y0, g.x1, g.y1)) := by
+  intro a item rt rb
+  have e1 : rt = _ := tie_area_getitem a top _ _ ht
+  have e2 : rb = _ := tie_area_getitem a bot _ _ hb
+  obtain ⟨c1, c2⟩ := C10.split_concat_id hg k hk0 hk top bot ht hb
+  rw [e1, e2]
+  simp only
+  rw [tie_concatenate_area_defs top.g bot.g, tie_concatenate_area_defs bot.g top.g, c1, c2]
+  simp
+
 end PyresampleModel.Tie
